@@ -174,6 +174,13 @@ def resolve_all(sym, acc, D):
             return go(sym[2][0], i + 1, depth + 1)
         if a == "some" and sym == ["unit", "core::option::Option::None"]:
             return
+        if a == "some" and st is not None and st[0] in ("cond", "opt"):
+            # cond(c, p) / opt(p) yield Some(value of p) or None
+            inner = ret_of(st[3] if st[0] == "cond" else st[2])
+            if inner is not None:
+                return go(inner, i + 1, depth + 1)
+        if a == "some" and sym[0] == "nonempty":
+            return go(sym[1], i + 1, depth + 1)
         alts = alternatives(sym, D)
         if alts is not None:
             for x in alts:
